@@ -86,6 +86,24 @@ def _restart(at, P, parset, progset, instructions, res, year, medium, scratch, s
             for k in par.y_factor:
                 par.y_factor[k] = 1.0
         fresh.load_calibration(ss)
+        # the saved state itself must survive the spreadsheet to the 16 significant digits a spreadsheet stores
+        a, b = ps.initialization.values, fresh.initialization.values
+        worst = 0.0
+        for key, va in a.items():
+            vb = b.get(key)
+            if vb is None:
+                worst = float("inf")
+                break
+            va_, vb_ = np.atleast_1d(np.asarray(va, dtype=float)), np.atleast_1d(np.asarray(vb, dtype=float))
+            if va_.shape != vb_.shape:
+                worst = float("inf")
+                break
+            with np.errstate(invalid="ignore", divide="ignore"):
+                rel = np.abs(va_ - vb_) / np.maximum(np.abs(va_), 1e-300)
+            rel = rel[np.isfinite(rel)]
+            if rel.size:
+                worst = max(worst, float(rel.max()))
+        stats["_saved_state_worst_rel"] = max(stats.get("_saved_state_worst_rel", 0.0), worst)
         ps = fresh
     old_start = P2.settings.sim_start
     P2.settings.update_time_vector(start=year)
@@ -328,6 +346,9 @@ def run(ch, idx, tier):
         if exhaustive:
             bump("probe:all_crash_indices_enumerated")
         stats.pop("_file_toggle", None)
+        w_ = stats.pop("_saved_state_worst_rel", 0.0)
+        if w_ > 1e-15:
+            violations.append({"cls": "saved_state_loses_digits_in_spreadsheet", "site": "Initialization.to_excel/from_excel", "detail": {"worst_relative_difference": w_, "config": config}})
         bump("problems")
         sig = hashlib.sha256(repr(sorted(set(sigs))).encode()).hexdigest()[:16] if sigs else None
         return {
